@@ -225,3 +225,57 @@ Proof.
   - apply nth_error_In, repeat_spec in Hn. subst. reflexivity.
   - apply nth_error_None in Hn. rewrite repeat_length in Hn. lia.
 Qed.
+
+Lemma norm_dim_range (n i : Z) : - n <= i < n -> 0 <= norm_dim n i < n.
+Proof. intros H. unfold norm_dim. destruct (i <? 0) eqn:Hi; lia. Qed.
+
+Lemma flatten_out_prod (sh : list Z) (s e : Z) :
+  let n := lenZ sh in
+  1 <= n -> - n <= s < n -> - n <= e < n -> norm_dim n s <= norm_dim n e ->
+  prodZ (flatten_out sh s e) = prodZ sh.
+Proof.
+  intros n Hn Hs He Hle. rewrite flatten_out_spec by assumption.
+  apply flatten_spec_prod.
+  pose proof (norm_dim_range _ _ Hs). pose proof (norm_dim_range _ _ He). fold n. lia.
+Qed.
+
+Lemma flatten_out_rank (sh : list Z) (s e : Z) :
+  let n := lenZ sh in
+  1 <= n -> - n <= s < n -> - n <= e < n -> norm_dim n s <= norm_dim n e ->
+  lenZ (flatten_out sh s e) = n - (norm_dim n e - norm_dim n s).
+Proof.
+  intros n Hn Hs He Hle. rewrite flatten_out_spec by assumption.
+  pose proof (norm_dim_range _ _ Hs). pose proof (norm_dim_range _ _ He). fold n in H, H0 |- *.
+  unfold lenZ at 1. rewrite flatten_spec_length; unfold n, lenZ in *; lia.
+Qed.
+
+Lemma conv_out_axes_same (l : list Z) (dilation kernel stride : hp) (cnt : nat) (i : Z) :
+  0 <= i -> (Z.to_nat i + cnt = length l)%nat ->
+  conv_out_axes (HSeq l) (HStr "same") dilation kernel stride i cnt = Ok (skipn (Z.to_nat i) l).
+Proof.
+  revert i. induction cnt as [|c IH]; intros i Hi Hlen; cbn [conv_out_axes].
+  - rewrite skipn_all2 by lia. reflexivity.
+  - cbn [hp_is_str String.eqb Ascii.eqb Bool.eqb index_tuple].
+    change (hp_is_str (HStr "same") "same") with true. cbv iota.
+    unfold py_index, lenZ.
+    destruct (i <? 0) eqn:Hi0; [lia|].
+    destruct ((i <? 0) || (Z.of_nat (length l) <=? i)) eqn:Hc; [lia|].
+    destruct (nth_error l (Z.to_nat i)) as [x|] eqn:Hn.
+    + cbn [bind]. rewrite IH by lia. cbn [bind].
+      replace (Z.to_nat (i + 1)) with (S (Z.to_nat i)) by lia.
+      f_equal.
+      clear - Hn. revert l Hn. generalize (Z.to_nat i) as m.
+      induction m as [|m IHm]; intros [|y l] Hn; cbn in *; try discriminate.
+      * congruence.
+      * apply IHm. assumption.
+    + apply nth_error_None in Hn. lia.
+Qed.
+
+Lemma conv_out_same (l : list Z) (dilation kernel stride : hp) :
+  conv_out (HSeq l) (HStr "same") dilation kernel stride = Ok l.
+Proof.
+  unfold conv_out. cbn [hp_ndim bind].
+  change (hp_is_str (HStr "same") "valid") with false. cbv iota.
+  unfold lenZ. rewrite Nat2Z.id.
+  rewrite conv_out_axes_same; [reflexivity|lia|reflexivity].
+Qed.
